@@ -27,10 +27,12 @@ package quic
 import (
 	"bytes"
 	"context"
+	"crypto/tls"
 	"errors"
 	"fmt"
 	"encoding/json"
 	"io"
+	mrand "math/rand/v2"
 	"net"
 	"net/netip"
 	"os"
@@ -90,6 +92,8 @@ type c19Case struct {
 	// Freeze: 0 = off; 1+2*i+r = when Close on stream i (r=0: by the opener, r=1: by
 	// the acceptor) returns nil the network drops everything from then on.
 	Freeze int `json:"freeze,omitempty"`
+	// Seed seeds the conns' PRNGs (which choose the packet numbers to skip).
+	Seed uint64 `json:"seed"`
 }
 
 const (
@@ -293,6 +297,7 @@ func c19Gen(t *rapid.T) c19Case {
 		CS:      rapid.SliceOfN(fault, 0, 24).Draw(t, "cs"),
 		SC:      rapid.SliceOfN(fault, 0, 24).Draw(t, "sc"),
 	}
+	c.Seed = uint64(rapid.IntRange(0, 999).Draw(t, "seed"))
 	if pct("freeze") < 30 {
 		c.Freeze = rapid.IntRange(1, 2*len(c.Streams)).Draw(t, "freezeon")
 	}
@@ -482,6 +487,37 @@ func (p *c19PC) Write(d datagram) error {
 	}
 	p.net.send(p.side, bytes.Clone(d.b))
 	return nil
+}
+
+// c19Hooks makes a conn's own randomness (connection IDs, skipped packet numbers) a
+// function of the case, for repeatability. It implements endpointTestHooks.
+type c19Hooks struct {
+	seed  uint64
+	side  byte
+	conns int // conns created by this endpoint (a duplicated, late Initial creates a second one)
+}
+
+func (h *c19Hooks) newConn(c *Conn, cids newServerConnIDs) {
+	c.testHooks = &c19ConnHooks{h: h, c: c, n: h.conns}
+	h.conns++
+}
+
+type c19ConnHooks struct {
+	h *c19Hooks
+	c *Conn
+	n int
+}
+
+func (k *c19ConnHooks) init(first bool) {
+	if first {
+		k.c.prng = mrand.New(mrand.NewPCG(k.h.seed, uint64(k.h.side)+2*uint64(k.n)))
+		k.c.skip = skipState{}
+		k.c.skip.init(k.c)
+	}
+}
+func (k *c19ConnHooks) handleTLSEvent(tls.QUICEvent) {}
+func (k *c19ConnHooks) newConnID(seq int64) ([]byte, error) {
+	return []byte{0xc1, k.h.side, byte(k.n >> 8), byte(k.n), 0, 0, byte(seq >> 8), byte(seq)}, nil
 }
 
 // ---------------------------------------------------------------- run
@@ -781,10 +817,10 @@ func c19RunCase(t *testing.T, c c19Case, r *vp.Rec) (err error) {
 	}
 	ccfg, scfg := mkcfg(clientSide, c.Cli), mkcfg(serverSide, c.Srv)
 	var eps [2]*Endpoint
-	if eps[1], err = newEndpoint(x.net.pc[1], scfg, nil); err != nil {
+	if eps[1], err = newEndpoint(x.net.pc[1], scfg, &c19Hooks{seed: c.Seed, side: 1}); err != nil {
 		return fmt.Errorf("harness: newEndpoint: %v", err)
 	}
-	if eps[0], err = newEndpoint(x.net.pc[0], nil, nil); err != nil {
+	if eps[0], err = newEndpoint(x.net.pc[0], nil, &c19Hooks{seed: c.Seed, side: 0}); err != nil {
 		return fmt.Errorf("harness: newEndpoint: %v", err)
 	}
 	teardown := func() {
